@@ -33,6 +33,7 @@ import (
 	sutils "github.com/siglens/siglens/pkg/segment/utils"
 	"github.com/siglens/siglens/pkg/segment/writer"
 	"github.com/siglens/siglens/pkg/utils"
+	"github.com/siglens/siglens/pkg/verifhook"
 
 	log "github.com/sirupsen/logrus"
 )
@@ -106,6 +107,7 @@ func initNewMultiColumnReader(segKey string, colFDs map[string]*os.File,
 	// todo blockSummaries don't need to be passed, we could just pick from this
 	// below function
 	if writer.IsSegKeyUnrotated(segKey) {
+		verifhook.At("read.unrotated.checked", "qid", qid, "segkey", segKey)
 		allBmi, err = writer.GetBlockSearchInfoForKey(segKey)
 		if err != nil {
 			return nil, fmt.Errorf("InitSharedMultiColumnReaders: failed to get allBmi for unrotated segKey %s; err=%v", segKey, err)
